@@ -152,6 +152,18 @@ try:
 except ImportError:
     pass
 
+try:
+    import gen_summary
+    MODULES['Summary'] = gen_summary.generate
+except ImportError:
+    pass
+
+try:
+    import gen_cliitems
+    MODULES['CliItems'] = gen_cliitems.generate
+except ImportError:
+    pass
+
 def main():
     args = sys.argv[1:]
     repo = '/repo'
